@@ -15,13 +15,17 @@ SPEC = os.path.join(vf.ROOT, "spec", "Propagation")
 ATTRS = ["LP", "MED", "OID", "CL", "AIGP", "UT", "UN"]
 
 
-def cfg(name, hassets, invs):
+def tsets(sets):
+    return "{" + ", ".join("{" + ", ".join(f'"{a}"' for a in s) + "}" for s in sets) + "}"
+
+
+def cfg(name, hassets, invs, polsets=((), ("LP", "MED"), tuple(ATTRS))):
     d = os.path.join(vf.WORK, "cfg")
     os.makedirs(d, exist_ok=True)
     p = os.path.join(d, name)
-    hs = "{" + ", ".join("{" + ", ".join(f'"{a}"' for a in s) + "}" for s in hassets) + "}"
+    hs = tsets(hassets)
     with open(p, "w") as f:
-        f.write(f"CONSTANTS\n  HasSets = {hs}\nSPECIFICATION Spec\nINVARIANTS {' '.join(invs)}\nCHECK_DEADLOCK FALSE\n")
+        f.write(f"CONSTANTS\n  HasSets = {hs}\n  PolHasSets = {tsets(polsets)}\nSPECIFICATION Spec\nINVARIANTS {' '.join(invs)}\nCHECK_DEADLOCK FALSE\n")
     return p
 
 
@@ -58,7 +62,7 @@ def main(c):
         for j in cases:
             k = j["case"]
             f.write(f"case {k['src']} {k['dst']} {1 if k['confed'] else 0} {k['asp']} {','.join(k['has']) if k['has'] else '-'} "
-                    f"{1 if k['llgr'] else 0} {1 if k['same'] else 0}\n")
+                    f"{1 if k['llgr'] else 0} {1 if k['same'] else 0} {k['pol']}\n")
     if os.path.exists(outp):
         os.remove(outp)
     rc, out = vf.daemon_test("event::verif_harness::prop_replay", env={"VERIF_IN": inp, "VERIF_OUT": outp}, timeout=3000)
@@ -95,6 +99,12 @@ def main(c):
                     for x in e["present"]:
                         if x not in a["present"]:
                             bad.append(f"{x} must be present")
+                    if e["medval"] == "policy" and a["med"] != 777:
+                        bad.append(f"MED: the export policy sets 777, sent {a['med']}")
+                    if e["comm"] == "policy":
+                        want = sorted([(65000 << 16) | 1] + ([0xFFFF0006] if com["llgrStale"] else []))
+                        if a["comm"] != want:
+                            bad.append(f"communities: expected {want} got {a['comm']}")
                     if e["nexthop"] != "any" and a["nexthop"] != e["nexthop"]:
                         bad.append(f"next hop: expected {e['nexthop']} got {a['nexthop']}")
                     if e["oid"] != "any" and a["oid"] != e["oid"]:
@@ -116,7 +126,8 @@ def main(c):
     c.cov["distinct_nontrivial"] = nontrivial
     c.cov["exhaustive"] = True
     c.cov["rule"] = ("every case of the matrix (source kind x receiver role x confederation x AS_PATH shape x attribute-presence vector "
-                     f"[{len(hs)} vectors] x LLGR-stale x same-peer), both export branches; non-trivial = the statement requires the route to be sent")
+                     f"[{len(hs)} vectors] x LLGR-stale x same-peer x export policy [none; for 3 vectors also next-hop / MED / community-replace "
+                     f"actions]), both export branches; non-trivial = the statement requires the route to be sent")
     c.sample(cases[len(cases) // 3])
     c.assumptions += [
         "fields the statement leaves open are not compared: everything but the opaque-attribute rule for RS clients (RFC 7947 "
